@@ -15,9 +15,11 @@ CHECKS = {
     "C01": dict(
         text="Theorem C01_exact: for every initial inventory and real time the closed form the library evaluates, with the "
              "shipped exact matrices (kernel-checked C*C^-1=1 and L*C=C*diag(-lambda) on data regenerated from the files), "
-             "satisfies the decay ODE system + initial condition and is its unique solution. The 1e-11 double-precision bound, "
-             "nuclide set/order, finiteness and zero activity of stable nuclides are checked per generated input against the "
-             "verified rational interval oracle (decayFactor_sound), not proved (named _partial in the evidence).",
+             "satisfies the decay ODE system + initial condition and is its unique solution. C01_nuclide_set: the index set written "
+             "out is exactly the inputs and their closure under the progeny lists. C01_oracle_sound: the rational interval oracle "
+             "encloses that exact solution for every input; float_data_contribution: the stored doubles contribute <= 5e-12 of the "
+             "initial atoms. The rounding part of the 1e-11 bound, order, finiteness and zero activity of stable nuclides are "
+             "checked per generated input against the proved oracle (named _partial in the evidence).",
         ref="§4 C01", technique=PROOF_DECAY,
         note=NOTE + "IEEE-754 behaviour of NumPy/SciPy assumed; forward-error bound is per-input, not a theorem; shipped dataset only."),
     "C02": dict(
@@ -29,8 +31,9 @@ CHECKS = {
         note=NOTE + "SymPy/mpmath rounding assumed correct; nsimplify's reading taken as the exact input."),
     "C03": dict(
         text="Theorems C03_integral (cumulative decays = integral of activity), C03_atom_balance, C03_stable for the shipped "
-             "dataset, all N(0), all t; real cumulative_decays of both classes compared with the verified oracle, keys = radioactive "
-             "closure, atom balance recomputed from real outputs.",
+             "dataset, all N(0), all t; C03_oracle_sound: the interval oracle cumEncl encloses the exact integral for every input; "
+             "real cumulative_decays of both classes compared with that oracle, keys = radioactive closure, atom balance "
+             "recomputed from real outputs.",
         ref="§4 C03", technique=PROOF_DECAY, note=NOTE + "Rounding bounds per input, not proved."),
     "C04": dict(
         text="Every statement of the property is a kernel-evaluated decision (decide +kernel, no axioms beyond the standard three) "
@@ -116,9 +119,11 @@ CHECKS = {
         text="For the shipped dataset the kernel decides, for every root, that the queue-based builder model equals an independent "
              "specification (reachability, layered minimum distance, SF nodes, one edge per link, distinct names and positions); "
              "the real builder is compared with the model and with an independent reading for all 1512 roots, labels included. "
-             "The for-all-datasets invariants are not proved (partial).",
+             "For ALL datasets: positions pairwise distinct and edges = listed links (C16_positions_injective, "
+             "C16_edges_from_links), names distinct under DiagramWF (C16_node_names_nodup); node set = reachable set for all "
+             "datasets is not proved (partial).",
         ref="§4 C16", technique="Lean 4 kernel decision for all roots of the regenerated dataset + exhaustive correspondence",
-        note=NOTE + "Shipped dataset only; networkx/Matplotlib not modelled."),
+        note=NOTE + "Reachability/row theorems for the shipped dataset only; networkx/Matplotlib not modelled."),
     "C17": dict(
         text="eq_refl/symm/trans, ne_is_not_eq, eq_iff_same, nuclide_eq_iff, hash_respects_eq, foreign_type_false, cross_kind_false "
              "proved for the equality model; all ordered pairs of a pool of nuclides, inventories (both classes, many numeric "
